@@ -215,8 +215,13 @@ func tryReplay(p *Program, repo string, r *OblResult) (bool, map[string]any) {
 		// R2: functions whose non-scalar inputs are byte slices (the decoders)
 		src2, why2 := replayBytesSource(p, r)
 		if src2 == "" {
-			how["note"] = "counterexample not replayed: " + why + "; " + why2
-			return false, how
+			// R3: method on a struct whose fields are scalars and slices of scalars (receive window, RTO manager, ...)
+			src3, why3 := replayStructSource(p, r)
+			if src3 == "" {
+				how["note"] = "counterexample not replayed: " + why + "; " + why2 + "; " + why3
+				return false, how
+			}
+			src2 = src3
 		}
 		src = src2
 	}
@@ -417,6 +422,256 @@ func replayBytesSource(p *Program, r *OblResult) (string, string) {
 			return "", "postcondition uses ghost vocabulary or quantifiers: not executable"
 		}
 		fmt.Fprintf(&sb, "\tif !(%s) {\n\t\tt.Fatalf(\"REPRODUCED: %s violated on the real code\")\n\t}\n", cl.GoText, strings.ReplaceAll(r.Name, `"`, `'`))
+	}
+	sb.WriteString("}\n")
+	return sb.String(), ""
+}
+
+
+// rewriteOld replaces old(e) by e with the receiver name replaced by the name of its pre-state copy.
+func rewriteOld(text, recv, pre string) (string, bool) {
+	for {
+		i := strings.Index(text, "old(")
+		if i < 0 {
+			return text, true
+		}
+		if i > 0 && (text[i-1] == '_' || (text[i-1] >= 'a' && text[i-1] <= 'z') || (text[i-1] >= 'A' && text[i-1] <= 'Z')) {
+			return "", false
+		}
+		depth, j := 0, i+3
+		for ; j < len(text); j++ {
+			if text[j] == '(' {
+				depth++
+			} else if text[j] == ')' {
+				depth--
+				if depth == 0 {
+					break
+				}
+			}
+		}
+		if j >= len(text) {
+			return "", false
+		}
+		inner := text[i+4 : j]
+		re := regexp.MustCompile(`\b` + regexp.QuoteMeta(recv) + `\b`)
+		inner = re.ReplaceAllString(inner, pre)
+		text = text[:i] + "(" + inner + ")" + text[j+1:]
+	}
+}
+
+// replayStructSource (R3): a method whose receiver points to a struct made of scalars and slices of scalars, with scalar
+// parameters. A second solver run asks for a counterexample with slices of at most 64 elements and for the field values;
+// the test builds that object, keeps a deep copy as the pre-state (old(e) is e evaluated on the copy), calls the real
+// method and evaluates the failed postcondition (bound variables take the solver's witnesses). Safety obligations are
+// reproduced by a panic.
+func replayStructSource(p *Program, r *OblResult) (string, string) {
+	c := p.Contracts[r.Func]
+	if c == nil || c.Fn == nil || r.FailSMT == "" {
+		return "", "no query kept for a minimising run"
+	}
+	if r.Kind != "safe" && r.Kind != "post" {
+		return "", "struct replay covers safety obligations and postconditions only"
+	}
+	sig := c.Fn.Signature
+	rv := sig.Recv()
+	if rv == nil {
+		return "", "no receiver"
+	}
+	pt, ok := rv.Type().(*types.Pointer)
+	if !ok {
+		return "", "value receiver"
+	}
+	st, ok := pt.Elem().Underlying().(*types.Struct)
+	if !ok {
+		return "", "receiver is not a struct"
+	}
+	tname := types.TypeString(pt.Elem(), func(*types.Package) string { return "" })
+	rname := rv.Name()
+	if rname == "" || rname == "_" {
+		return "", "unnamed receiver"
+	}
+	declared := func(sym string) bool { return strings.Contains(r.FailSMT, "(declare-fun "+sym+" ") }
+	recvSym := smtName("in_" + rname)
+	var extra strings.Builder
+	var get []string
+	type fld struct {
+		name  string
+		ty    types.Type
+		slice bool
+		elem  types.Type
+	}
+	var flds []fld
+	for i := 0; i < st.NumFields(); i++ {
+		f := st.Field(i)
+		switch u := f.Type().Underlying().(type) {
+		case *types.Basic:
+			if u.Info()&types.IsString != 0 {
+				continue
+			}
+			arr := smtName("F:"+tname+"."+f.Name()) + "@pre"
+			if declared(arr) && declared(recvSym) {
+				srt := sortOfBasic(u)
+				fmt.Fprintf(&extra, "(define-fun rf_%s () %s (select %s %s))\n", f.Name(), srt.str, arr, recvSym)
+				get = append(get, "rf_"+f.Name())
+			}
+			flds = append(flds, fld{f.Name(), f.Type(), false, nil})
+		case *types.Slice:
+			eb, isB := u.Elem().Underlying().(*types.Basic)
+			if !isB || eb.Info()&types.IsString != 0 {
+				continue // left nil
+			}
+			pre := smtName("F:" + tname + "." + f.Name())
+			if declared(pre+"_len@pre") && declared(recvSym) {
+				fmt.Fprintf(&extra, "(define-fun rf_%s_len () (_ BitVec 64) (select %s_len@pre %s))\n", f.Name(), pre, recvSym)
+				fmt.Fprintf(&extra, "(assert (bvule rf_%s_len (_ bv64 64)))\n", f.Name())
+				get = append(get, "rf_"+f.Name()+"_len")
+				earr := smtName("E:"+typeName(u.Elem())) + "@pre"
+				if declared(earr) && declared(pre+"_base@pre") && declared(pre+"_off@pre") {
+					srt := sortOfBasic(eb)
+					for k := 0; k < 64; k++ {
+						fmt.Fprintf(&extra, "(define-fun rf_%s_%d () %s (select (select %s (select %s_base@pre %s)) (bvadd (select %s_off@pre %s) (_ bv%d 64))))\n",
+							f.Name(), k, srt.str, earr, pre, recvSym, pre, recvSym, k)
+						get = append(get, fmt.Sprintf("rf_%s_%d", f.Name(), k))
+					}
+				}
+			}
+			flds = append(flds, fld{f.Name(), f.Type(), true, u.Elem()})
+		}
+	}
+	for i := 0; i < sig.Params().Len(); i++ {
+		pv := sig.Params().At(i)
+		if _, isB := pv.Type().Underlying().(*types.Basic); !isB {
+			return "", "parameter " + pv.Name() + " is not a scalar"
+		}
+		if declared(smtName("in_" + pv.Name())) {
+			get = append(get, smtName("in_"+pv.Name()))
+		}
+	}
+	var cl *Clause
+	if r.Kind == "post" {
+		for _, e := range c.Ensures {
+			if c.Key+":post#"+e.Label == r.Name {
+				cl = e
+			}
+		}
+		if cl == nil {
+			return "", "clause not found"
+		}
+		for _, b := range cl.Bound {
+			if b.Obj == nil {
+				return "", "unbound quantified variable"
+			}
+		}
+	}
+	// witnesses of the bound variables are skolem constants of the refuted query
+	skRe := regexp.MustCompile(`\(declare-fun (sk_[A-Za-z0-9_]+![0-9]+) `)
+	for _, m := range skRe.FindAllStringSubmatch(r.FailSMT, -1) {
+		get = append(get, m[1])
+	}
+	res := solve("replay-min", r.FailSMT+extra.String(), get, 30, false)
+	if res.Status != "sat" {
+		return "", "no counterexample with slices of at most 64 elements (" + res.Status + ")"
+	}
+	lit := func(t types.Type, key string) (string, bool) {
+		mv, ok := res.Model[key]
+		if !ok {
+			mv = "#x0"
+			if b, isB := t.Underlying().(*types.Basic); isB && b.Info()&types.IsBoolean != 0 {
+				mv = "false"
+			}
+			if isFloat(t) {
+				mv = "(_ +zero 11 53)"
+			}
+		}
+		return goLiteral(t, mv)
+	}
+	var sb strings.Builder
+	sb.WriteString("//go:build verif\n\npackage sctp\n\nimport (\n\t\"math\"\n\t\"testing\"\n)\n\nvar _ = math.Float64frombits\n\n")
+	sb.WriteString("func TestVerifReplay(t *testing.T) {\n")
+	if r.Kind == "safe" {
+		sb.WriteString("\tdefer func() {\n\t\tif e := recover(); e != nil {\n\t\t\tt.Fatalf(\"REPRODUCED: the real code panics on this input: %v\", e)\n\t\t}\n\t}()\n")
+	}
+	build := func(name string) {
+		fmt.Fprintf(&sb, "\t%s := &%s{}\n", name, tname)
+		for _, f := range flds {
+			if !f.slice {
+				l, ok := lit(f.ty, "rf_"+f.name)
+				if ok {
+					fmt.Fprintf(&sb, "\t%s.%s = %s\n", name, f.name, l)
+				}
+				continue
+			}
+			n := 0
+			if v, ok := res.Model["rf_"+f.name+"_len"]; ok {
+				if b, ok := modelBig(v); ok {
+					n = int(b.Int64())
+				}
+			}
+			var els []string
+			for k := 0; k < n && k < 64; k++ {
+				l, ok := lit(f.elem, fmt.Sprintf("rf_%s_%d", f.name, k))
+				if !ok {
+					l = "0"
+				}
+				els = append(els, l)
+			}
+			fmt.Fprintf(&sb, "\t%s.%s = %s{%s}\n", name, f.name, types.TypeString(f.ty, func(*types.Package) string { return "" }), strings.Join(els, ", "))
+		}
+	}
+	build(rname)
+	pre := rname + "AtEntry"
+	build(pre)
+	fmt.Fprintf(&sb, "\t_ = %s\n", pre)
+	var args []string
+	for i := 0; i < sig.Params().Len(); i++ {
+		pv := sig.Params().At(i)
+		l, ok := lit(pv.Type(), smtName("in_"+pv.Name()))
+		if !ok {
+			return "", "parameter " + pv.Name() + " has no literal form"
+		}
+		fmt.Fprintf(&sb, "\t%s := %s\n\t_ = %s\n", pv.Name(), l, pv.Name())
+		args = append(args, pv.Name())
+	}
+	rs := sig.Results()
+	var lhs []string
+	for i := 0; i < rs.Len(); i++ {
+		n := "result"
+		if rs.Len() > 1 {
+			n = fmt.Sprintf("result%d", i)
+		}
+		lhs = append(lhs, n)
+	}
+	call := rname + "." + c.Fn.Name() + "(" + strings.Join(args, ", ") + ")"
+	if len(lhs) > 0 {
+		fmt.Fprintf(&sb, "\t%s := %s\n", strings.Join(lhs, ", "), call)
+		for _, n := range lhs {
+			fmt.Fprintf(&sb, "\t_ = %s\n", n)
+		}
+	} else {
+		fmt.Fprintf(&sb, "\t%s\n", call)
+	}
+	if r.Kind == "post" {
+		text, ok := rewriteOld(cl.GoText, rname, pre)
+		if !ok || regexp.MustCompile(`\b(isNew|typeIs|ifaceIs|sameSlice|unchanged|sends|recvs|held|visited|has|rangeIdx|iterStart)\(`).MatchString(text) {
+			return "", "postcondition uses ghost vocabulary that cannot be executed"
+		}
+		for _, b := range cl.Bound {
+			var val string
+			for k, v := range res.Model {
+				if strings.HasPrefix(k, smtName("sk_"+b.Name)+"!") {
+					val = v
+				}
+			}
+			if val == "" {
+				return "", "no witness for bound variable " + b.Name
+			}
+			l, ok := goLiteral(b.Obj.Type(), val)
+			if !ok {
+				return "", "bound variable " + b.Name + " is not a scalar"
+			}
+			fmt.Fprintf(&sb, "\t%s := %s\n\t_ = %s\n", b.Name, l, b.Name)
+		}
+		fmt.Fprintf(&sb, "\tif !(%s) {\n\t\tt.Fatalf(\"REPRODUCED: %s violated on the real code\")\n\t}\n", text, strings.ReplaceAll(r.Name, `"`, `'`))
 	}
 	sb.WriteString("}\n")
 	return sb.String(), ""
